@@ -279,6 +279,22 @@ func (x *Exec) callFunction(fr *frame, s *State, callee *ssa.Function, args []Va
 		*s = *exit
 		return results
 	}
+	if ct == nil && !isLocalClosure && x.autoDepth < 3 && x.E.autoInline(callee) {
+		// a function introduced after the contracts were written (not in the baseline): verified
+		// through, i.e. executed in place; "atcall" anchors of the unit also bind inside it
+		x.C.Trusted["functions that are not in /verif/baseline_funcs.json and have no contract are executed in place (exact) instead of being abstracted: "+x.E.fnKey(callee)] = true
+		x.autoDepth++
+		x.autoParents = append(x.autoParents, fr)
+		exit, results, _ := x.run(callee, s, args, nil, nil, true)
+		x.autoParents = x.autoParents[:len(x.autoParents)-1]
+		x.autoDepth--
+		if exit == nil {
+			s.Reach = False
+			return nil
+		}
+		*s = *exit
+		return results
+	}
 	if x.E.scalarOnlyExternal(callee) {
 		// deterministic-unknown: uninterpreted function of the arguments
 		return x.uninterpretedCall(s, callee, args)
@@ -675,6 +691,12 @@ func (e *Engine) autoPure(fn *ssa.Function, depth int) bool {
 // atCallCheck evaluates the unit's "atcall" region postconditions anchored at calls of key;
 // the call's arguments (receiver first) are visible as callarg0, callarg1, ...
 func (x *Exec) atCallCheck(fr *frame, s *State, key string, args []Value) {
+	// inside a function executed in place because it is new (autoInline), the anchors of the
+	// enclosing unit apply, evaluated over that unit's locals
+	if fr.contract == nil && fr.autoParent != nil {
+		x.atCallCheck(fr.autoParent, s, key, args)
+		return
+	}
 	if fr.contract != nil && len(fr.contract.AtCalls) > 0 {
 		for k, ac := range fr.contract.AtCalls {
 			if ac.Callee != key {
